@@ -83,9 +83,38 @@ def child_main():
     def BOOMVE():
         raise ValueError('boom')
 
+    def BOOMNI():
+        raise NotImplementedError('boom')
+
+    class CustomRuntimeError(RuntimeError):
+        pass
+
+    def BOOMSUB():
+        raise CustomRuntimeError('boom')
+
+    def BOOMREC():
+        raise RecursionError('maximum recursion depth exceeded')
+
     signal.signal(signal.SIGALRM, on_alarm)
-    ns = {**xl.FUNCTIONS, 'BOOMRT': BOOMRT, 'BOOMVE': BOOMVE}
+    ns = {**xl.FUNCTIONS, 'BOOMRT': BOOMRT, 'BOOMVE': BOOMVE, 'BOOMNI': BOOMNI, 'BOOMSUB': BOOMSUB,
+          'BOOMREC': BOOMREC}
     out = sys.stdout
+
+    def timed(fn):
+        t0 = time.perf_counter()
+        c0 = time.process_time()
+        try:
+            signal.setitimer(signal.ITIMER_REAL, per_case)
+            try:
+                res = fn()
+            finally:
+                signal.setitimer(signal.ITIMER_REAL, 0)
+        except CaseTimeout:
+            res = 'TIMEOUT'
+        except MemoryError:
+            res = 'MEMORY'
+        return res, time.perf_counter() - t0, time.process_time() - c0
+
     for line in sys.stdin:
         job = json.loads(line)
         try:
@@ -96,21 +125,30 @@ def child_main():
                                       'out': 'COMPILE:' + type(exc).__name__ + ':' + str(exc)[:200], 'wall': 0}) + '\n')
             out.flush()
             continue
+        if 'hist' in job:
+            # ONE evaluator for the whole history; after every evaluation the same entry point is evaluated
+            # on a NEW evaluator (same model, same namespace) for comparison
+            ev = Evaluator(model, namespace=dict(ns))
+            for i, step in enumerate(job['hist']):
+                if step[0] == 'register':
+                    value = step[2]
+                    ev.namespace[step[1]] = (lambda v: (lambda *a: v))(value)
+                    continue
+                if step[0] == 'set':
+                    ev.set_cell_value(step[1], step[2])
+                    continue
+                addr = step[1]
+                key = f'#{i}:{addr}'
+                res, wall, cpu = timed(lambda: evalwire.canon_result(ev.evaluate, addr))
+                fresh, _w, _c = timed(lambda: evalwire.canon_result(
+                    Evaluator(model, namespace=dict(ev.namespace)).evaluate, addr))
+                if key in job['entries']:
+                    out.write(json.dumps({'id': job['id'], 'entry': key, 'out': res, 'fresh': fresh, 'wall': wall,
+                                          'cpu': cpu}) + '\n')
+                    out.flush()
+            continue
         for entry in job['entries']:
-            t0 = time.perf_counter()
-            c0 = time.process_time()
-            try:
-                signal.setitimer(signal.ITIMER_REAL, per_case)
-                try:
-                    res = evalwire.canon_result(Evaluator(model, namespace=ns).evaluate, entry)
-                finally:
-                    signal.setitimer(signal.ITIMER_REAL, 0)
-            except CaseTimeout:
-                res = 'TIMEOUT'
-            except MemoryError:
-                res = 'MEMORY'
-            wall = time.perf_counter() - t0
-            cpu = time.process_time() - c0
+            res, wall, cpu = timed(lambda: evalwire.canon_result(Evaluator(model, namespace=ns).evaluate, entry))
             out.write(json.dumps({'id': job['id'], 'entry': entry, 'out': res, 'wall': wall, 'cpu': cpu}) + '\n')
             out.flush()
 
@@ -138,7 +176,10 @@ def _run_chunk(jobs, results, abort, per_case=PER_CASE, mem=MEM_LIMIT):
     while pending and not abort.now:
         with tempfile.TemporaryFile('w+') as fin:
             for j, entries in pending:
-                fin.write(json.dumps({'id': j['id'], 'cells': j['cells'], 'entries': entries}) + '\n')
+                jd = {'id': j['id'], 'cells': j['cells'], 'entries': entries}
+                if 'hist' in j:
+                    jd['hist'] = j['hist']
+                fin.write(json.dumps(jd) + '\n')
             fin.flush()
             fin.seek(0)
             proc = subprocess.Popen([sys.executable, os.path.abspath(__file__), '--child', str(mem), str(per_case)],
@@ -162,8 +203,9 @@ def _run_chunk(jobs, results, abort, per_case=PER_CASE, mem=MEM_LIMIT):
                     while b'\n' in buf:
                         line, buf = buf.split(b'\n', 1)
                         d = json.loads(line)
-                        results[(d['id'], d['entry'])] = (d['out'], d.get('cpu', d['wall']))
-                        if d['out'] in ('TIMEOUT', 'MEMORY') or d['out'].startswith('X:MemoryError'):
+                        results[(d['id'], d['entry'])] = (d['out'], d.get('cpu', d['wall']), d.get('fresh'))
+                        if d['out'] in ('TIMEOUT', 'MEMORY') or d['out'].startswith('X:MemoryError') \
+                                or d.get('fresh') in ('TIMEOUT', 'MEMORY'):
                             abort.hit()
                         elif d['out'].startswith('X:runtime:') and int(d['out'].split(':')[2]) > 50000:
                             abort.hit()          # a report of this size: stop exploring soon, it only gets worse
@@ -179,7 +221,7 @@ def _run_chunk(jobs, results, abort, per_case=PER_CASE, mem=MEM_LIMIT):
             return
         # the child died or hung while working on order[done]
         jid, entry = order[done]
-        results[(jid, entry)] = ('TIMEOUT' if hung else 'MEMORY', per_case)
+        results[(jid, entry)] = ('TIMEOUT' if hung else 'MEMORY', per_case, None)
         abort.hit()
         finished = set(order[:done + 1])
         pending = [(j, [e for e in entries if (j['id'], e) not in finished]) for j, entries in pending]
@@ -253,7 +295,18 @@ FAILS = {
     'unknown': Fm('NOSUCHFN(1)', '( fail 20 ( lit I:1 ) )'),   # KeyError('NOSUCHFN') before any argument
     'valueerror': Fm('BOOMVE()', '( app 21 )'),                 # a function body raising ValueError('boom')
     'runtimeerror': Fm('BOOMRT()', '( app 20 )'),               # a function body raising RuntimeError('boom')
+    # RuntimeError SUBCLASSES: re-raised unchanged like RuntimeError itself, whatever the depth
+    'notimplemented': Fm('BOOMNI()', '( app 22 )'),             # NotImplementedError('boom')
+    'subclass': Fm('BOOMSUB()', '( app 23 )'),                  # a custom subclass of RuntimeError
+    'recursionerror': Fm('BOOMREC()', '( app 25 )'),            # RecursionError raised by a function body
 }
+SUBCLASS_KINDS = ('notimplemented', 'subclass', 'recursionerror', 'vlookup')
+
+
+def f_vlookup(sheet):
+    """the library's own trigger: approximate VLOOKUP raises NotImplementedError (42 characters)"""
+    key = f'{sheet}!Y1:Z2'
+    return Fm('VLOOKUP(1,Y1:Z2,2,TRUE)', f'( app 24 ( lit I:1 ) ( rng {cp(key)} ) ( lit I:2 ) ( lit B:1 ) )', [key])
 
 
 def range_rows(key):
@@ -459,35 +512,116 @@ def graph_jobs(masks, n, modes, tag):
 SHEETS = ['Sheet1', 'S', 'LongSheetName0123456789']
 
 
+def chain_cells(d, kind, sheets):
+    """A1 -> A2 -> … -> A_d where A_d fails (or closes a cycle back, or is a value); every second link is
+    `=next+1`, the others `=next`; the chain alternates over the given sheets"""
+    names = [f'{sheets[i % len(sheets)]}!A{i + 1}' for i in range(d)]
+    cells = {}
+    for i in range(d - 1):
+        sh = names[i].split('!')[0]
+        r = f_ref(names[i + 1], sh)
+        cells[names[i]] = f_add(r, f_num(1)) if i % 2 else r
+    last_sheet = names[-1].split('!')[0]
+    if kind in FAILS:
+        cells[names[-1]] = FAILS[kind]
+    elif kind == 'vlookup':
+        cells[names[-1]] = f_vlookup(last_sheet)
+        for k, a in enumerate(('Y1', 'Z1', 'Y2', 'Z2')):
+            cells[f'{last_sheet}!{a}'] = k + 1
+    elif kind == 'switch':
+        # fails while the input Z9 is TRUE: IF(Z9, BOOMVE(), 7)
+        cells[names[-1]] = f_if(f_ref(f'{last_sheet}!Z9', last_sheet), FAILS['valueerror'], f_num(7))
+        cells[f'{last_sheet}!Z9'] = 1
+    elif kind == 'self':
+        cells[names[-1]] = f_ref(names[-1], last_sheet)
+    elif kind == 'back-to-top':
+        cells[names[-1]] = f_add(f_ref(names[0], last_sheet), f_num(1))
+    elif kind == 'back-to-middle':
+        cells[names[-1]] = f_ref(names[d // 2], last_sheet)
+    elif kind == 'value':
+        cells[names[-1]] = 7
+    else:
+        raise ValueError(kind)
+    return cells, names
+
+
 def chain_jobs(depths, kinds):
-    """A1 -> A2 -> … -> A_d where A_d fails (or closes a cycle back to cell `back`); every second link is
-    `=next+1`, the others `=next`; the chain alternates over sheets with short and long names"""
     jobs = []
     for d in depths:
         for kind in kinds:
             for sheets in (['Sheet1'], SHEETS):
-                names = [f'{sheets[i % len(sheets)]}!A{i + 1}' for i in range(d)]
-                cells = {}
-                for i in range(d - 1):
-                    sh = names[i].split('!')[0]
-                    r = f_ref(names[i + 1], sh)
-                    cells[names[i]] = f_add(r, f_num(1)) if i % 2 else r
-                last_sheet = names[-1].split('!')[0]
-                if kind in FAILS:
-                    cells[names[-1]] = FAILS[kind]
-                elif kind == 'self':
-                    cells[names[-1]] = f_ref(names[-1], last_sheet)
-                elif kind == 'back-to-top':
-                    cells[names[-1]] = f_add(f_ref(names[0], last_sheet), f_num(1))
-                elif kind == 'back-to-middle':
-                    cells[names[-1]] = f_ref(names[d // 2], last_sheet)
-                elif kind == 'value':
-                    cells[names[-1]] = 7
-                else:
-                    raise ValueError(kind)
+                cells, names = chain_cells(d, kind, sheets)
                 jobs.append(make_job(f'chain:{d}:{kind}:{len(sheets)}', cells,
                                      {'kind': 'chain', 'depth': d, 'fail': kind, 'entries': [names[0]],
                                       'names': names}))
+    return jobs
+
+
+def deep_jobs(depths, kinds):
+    """acyclic chains so deep that the INTERPRETER's recursion limit is hit in the child: the outcome is a value
+    or RecursionError — a RuntimeError subclass that must travel up unchanged (no growth per level)"""
+    jobs = []
+    for d in depths:
+        for kind in kinds:
+            cells, names = chain_cells(d, kind, ['Sheet1'])
+            jobs.append(make_job(f'deep:{d}:{kind}', cells,
+                                 {'kind': 'deep', 'depth': d, 'fail': kind, 'entries': [names[0]], 'names': names}))
+    return jobs
+
+
+def hist_job(jid, cells, steps, meta):
+    """several evaluations on ONE Evaluator; steps: ['eval', addr] | ['register', name, value] | ['set', addr, v]"""
+    entries = [f'#{i}:{st[1]}' for i, st in enumerate(steps) if st[0] == 'eval']
+    m = dict(meta)
+    m.update({'kind': 'hist', 'entries': entries, 'steps': steps,
+              'pure': all(st[0] == 'eval' for st in steps)})
+    j = make_job(jid, cells, m)
+    j['hist'] = steps
+    return j
+
+
+def chain_hist_jobs(depths, kinds):
+    """a failing chain evaluated repeatedly on one evaluator, at the top, below the top, in the middle; with the
+    cause of the failure removed in between (function registered / input set); mixed with entry points that do
+    not fail"""
+    jobs = []
+    for d in depths:
+        for kind in kinds:
+            cells, names = chain_cells(d, kind, ['Sheet1'] if d % 2 else SHEETS)
+            mid = names[d // 2]
+            second = names[min(1, d - 1)]
+            # an independent good chain and a cell that needs both
+            cells['Sheet1!G1'] = f_add(f_ref('Sheet1!G2', 'Sheet1'), f_num(1))
+            cells['Sheet1!G2'] = 5
+            cells['Sheet1!M1'] = f_add(f_ref('Sheet1!G1', 'Sheet1'), f_ref(second, 'Sheet1'))
+            ev = lambda a: ['eval', a]       # noqa: E731
+            meta = {'depth': d, 'fail': kind, 'acyclic': kind not in ('self', 'back-to-top', 'back-to-middle')}
+            jobs.append(hist_job(f'hist:{d}:{kind}:again', cells,
+                                 [ev(names[0]), ev(names[0]), ev(second), ev(mid)], meta))
+            jobs.append(hist_job(f'hist:{d}:{kind}:mixed', cells,
+                                 [ev(names[0]), ev('Sheet1!G1'), ev('Sheet1!M1'), ev(second)], meta))
+            jobs.append(hist_job(f'hist:{d}:{kind}:bottom-up', cells,
+                                 [ev(names[-1]), ev(mid), ev(names[0]), ev('Sheet1!G1')], meta))
+            if kind == 'unknown':
+                jobs.append(hist_job(f'hist:{d}:{kind}:registered', cells,
+                                     [ev(names[0]), ['register', 'NOSUCHFN', 5], ev(names[0]), ev(second), ev(mid)],
+                                     dict(meta, repaired=True)))
+            if kind == 'switch':
+                z9 = names[-1].split('!')[0] + '!Z9'
+                jobs.append(hist_job(f'hist:{d}:{kind}:input-set', cells,
+                                     [ev(names[0]), ['set', z9, 0], ev(names[0]), ev(second), ev('Sheet1!M1')],
+                                     dict(meta, repaired=True)))
+    return jobs
+
+
+def graph_hist_jobs(masks, n, tag):
+    """every cell of a graph evaluated in turn on ONE evaluator, then the first one again"""
+    jobs = []
+    for mask in masks:
+        mask = int(mask)
+        cells, names, _ = graph_cells(mask, n, 'refs')
+        steps = [['eval', a] for a in names] + [['eval', names[0]]]
+        jobs.append(hist_job(f'{tag}h:{n}:{mask}', cells, steps, {'n': n, 'mask': mask, 'names': names, 'graph': True}))
     return jobs
 
 
@@ -566,19 +700,42 @@ def check_batch(ctx, res, jobs, workers):
     from common import parse_kv, same_value
     results, abort = run_real(jobs, workers)
     lines, keys = [], []
+    hlines, hjobs = [], []
     for j in jobs:
         for e in j['entries']:
             if (j['id'], e) in results:
                 w = j['wire']
-                lines.append('\t'.join(['C06', 'eval', str(FUEL), w[0], w[1], w[2], cp(e)]))
+                addr = e.split(':', 1)[1] if e.startswith('#') else e      # history step `#i:addr`
+                lines.append('\t'.join(['C06', 'eval', str(FUEL), w[0], w[1], w[2], cp(addr)]))
                 keys.append((j, e))
+        if j['meta']['kind'] == 'hist' and j['meta']['pure'] and all((j['id'], e) in results for e in j['entries']):
+            w = j['wire']
+            hlines.append('\t'.join(['C06', 'hist', str(FUEL), w[0], w[1], w[2],
+                                     ','.join(cp(st[1]) for st in j['hist'])]))
+            hjobs.append(j)
     resp = ctx.driver.batch(lines)
+    # the model of ONE evaluator used for the whole history (theorem: nothing stays in progress)
+    for j, r in zip(hjobs, ctx.driver.batch(hlines)):
+        d = parse_kv(r)
+        if 'impl' not in d:
+            raise RuntimeError(f'driver: {r!r} for history {j["id"]}')
+        mres = d['impl'].split(';')
+        rres = [results[(j['id'], e)][0] for e in j['entries']]
+        if j['meta'].get('fail') == 'recursionerror':
+            rres = [x.replace('X:recursion:', 'X:runtime:') for x in rres]
+        if d['ev'] != '0':
+            raise RuntimeError(f'model: _evaluating not empty after history {j["id"]}')
+        ok = len(mres) == len(rres) and all(a == b or same_value(a, b) for a, b in zip(rres, mres))
+        res.count('history-vs-model:' + ('same' if ok else 'different'))
+        if not ok:
+            res.drift.append({'case': j['id'], 'history': j['hist'], 'cells': j['cells'], 'model': mres,
+                              'real': [x[:120] for x in rres]})
     for (j, e), line, r in zip(keys, lines, resp):
         d = parse_kv(r)
         if 'impl' not in d:
             raise RuntimeError(f'driver: {r!r} for {line[:300]!r}')
         meta = j['meta']
-        out, wall = results[(j['id'], e)]
+        out, wall, fresh = results[(j['id'], e)]
         cls, mlen = classify(out)
         if cls == 'compile':
             raise RuntimeError(f'the generated workbook does not compile: {j["cells"]} -> {out}')
@@ -587,7 +744,7 @@ def check_batch(ctx, res, jobs, workers):
         strict = d['strict'] == '1'
         res.evaluations += 1
         res.count('class:' + cls)
-        res.count('kind:' + meta['kind'] + (':' + meta.get('mode', meta.get('fail', '')) if meta['kind'] != 'special' else ''))
+        res.count('kind:' + meta['kind'] + (':' + str(meta.get('mode', meta.get('fail', 'graph'))) if meta['kind'] != 'special' else ''))
         inp = {'cells': j['cells'], 'entry': e, 'case': j['id']}
         bad = None
         expected = None
@@ -607,10 +764,21 @@ def check_batch(ctx, res, jobs, workers):
                 bad, expected = (f'reporting took {best:.3f}s CPU for a dependency chain of {depth} cells',
                                  f'<= {time_bound(depth):.3f}s')
             wall = best
+        hist = meta['kind'] == 'hist'
+        after_repair = False
+        if hist:
+            i = int(e[1:].split(':', 1)[0])
+            after_repair = any(st[0] != 'eval' for st in meta['steps'][:i])
+        rec_ok = meta['kind'] == 'deep' or meta.get('fail') == 'recursionerror'
         # 2. the Spec oracle: cycle reachable in a strict model <=> a cycle report
         if bad:
             pass
-        elif strict and cyc and meta['kind'] in ('graph', 'special') and cls != 'cycle':
+        elif hist and fresh is not None and fresh != out and not (classify(fresh)[0] == 'value' == cls
+                                                                   and same_value(fresh, out)):
+            bad, expected = ('an evaluation on a REUSED evaluator differs from the same evaluation on a new one '
+                             f'(step {e} of {meta["steps"]})', fresh[:200])
+        elif strict and cyc and (meta['kind'] in ('graph', 'special') or hist) and cls != 'cycle':
+            bad, expected = 'a reachable cycle is not reported as a cycle', 'RuntimeError "Cycle detected …"'
             bad, expected = 'a reachable cycle is not reported as a cycle', 'RuntimeError "Cycle detected …"'
         elif strict and cyc and meta['kind'] == 'chain' and cls != 'cycle':
             bad, expected = 'a reachable cycle is not reported as a cycle', 'RuntimeError "Cycle detected …"'
@@ -623,6 +791,11 @@ def check_batch(ctx, res, jobs, workers):
             bad, expected = f'cycle report of {mlen} characters', f'<= {d["cbound"]} (linear in the chain)'
         elif cls == 'exception' and out.startswith('X:runtime:') and mlen > int(d['fbound']):
             bad, expected = f'failure report of {mlen} characters at depth {depth}', f'<= {d["fbound"]} (one wrapper)'
+        elif cls == 'exception' and out.startswith('X:recursion:') and rec_ok:
+            # RecursionError (raised by a function body, or the interpreter's own limit on a very deep chain) is a
+            # RuntimeError subclass: it travels up unchanged
+            if mlen > int(d['fbound']):
+                bad, expected = f'RecursionError report of {mlen} characters at depth {depth}', f'<= {d["fbound"]}'
         elif cls == 'exception' and not out.startswith('X:runtime:'):
             # RecursionError or an exception class the evaluator never lets through
             bad, expected = f'evaluation ends with {out}', 'a value, a cycle report or one wrapped RuntimeError'
@@ -634,7 +807,7 @@ def check_batch(ctx, res, jobs, workers):
                 raise RuntimeError(f'Spec oracle disagreement on {j["id"]} entry {e}: lean {cyc} python {pc}')
             if cyc or has_sharing(meta['mask'], meta['n'], idx) or meta['mode'] == 'repeat':
                 res.nontrivial.add((meta['n'], meta['mask'], meta['mode'], idx))
-        elif meta['kind'] == 'chain':
+        elif meta['kind'] in ('chain', 'deep'):
             res.nontrivial.add((meta['depth'], meta['fail'], len(j['cells']), j['id']))
         else:
             res.nontrivial.add(j['id'] + e)
@@ -642,7 +815,10 @@ def check_batch(ctx, res, jobs, workers):
             res.violations.append({'what': bad, 'input': inp, 'expected': expected,
                                    'got': {'outcome': out[:200], 'wall_s': round(wall, 4)}})
         else:
-            same = (out == impl) or (cls == 'value' and same_value(out, impl))
+            cmp_out = out.replace('X:recursion:', 'X:runtime:') if meta.get('fail') == 'recursionerror' else out
+            same = (cmp_out == impl) or (cls == 'value' and same_value(out, impl))
+            if meta['kind'] == 'deep' or after_repair:
+                same = True       # the interpreter's own limit / a changed workbook: compared with Spec only
             if not same:
                 res.drift.append({'case': j['id'], 'entry': e, 'cells': j['cells'], 'model': impl, 'real': out[:200]})
         if len(res.samples) < 12 and (res.evaluations % 997 == 1 or meta['kind'] != 'graph' and res.evaluations % 37 == 0):
@@ -676,7 +852,7 @@ def run_corpus(ctx, res, workers):
         for e in j['entries']:
             if (j['id'], e) not in results:
                 continue
-            out, wall = results[(j['id'], e)]
+            out, wall, _fresh = results[(j['id'], e)]
             cls, mlen = classify(out)
             res.evaluations += 1
             res.count('kind:corpus')
@@ -709,7 +885,12 @@ def run(ctx):
                 'as entry point; rendered as sums of references, with maximal runs of consecutive successors as '
                 'SUM(range), with a repeated reference, and in a 2-D grid with SUM(A1:B2); chains of depth 1..60 ending '
                 'in an unknown function / a function raising ValueError / RuntimeError / a self reference / a reference '
-                'back to the top or the middle / a value, over one and three sheets; diamond ladders, ranges sharing '
+                'back to the top or the middle / a value / a RuntimeError SUBCLASS (NotImplementedError from a registered function and from '
+                'the library\'s approximate VLOOKUP, a custom subclass, RecursionError), over one and three sheets; chains of 130..400 '
+                'cells that hit the interpreter\'s own recursion limit; HISTORIES of 4-5 evaluations on ONE Evaluator (a failing '
+                'chain at top / second / middle / bottom, mixed with non-failing entry points, re-evaluated after the missing '
+                'function was registered or the input was set; every cell of every small graph in turn) against a new evaluator per '
+                'step and the model of an evaluator history; diamond ladders, ranges sharing '
                 'cells, IF with a cyclic unselected branch. Each evaluation runs in a child process (RLIMIT_AS 3 GiB, 4 s '
                 'timer); observable = outcome class, len(str(exc)), CPU time (chains: <= 0.25 s + 0.2 ms x depth^2, re-measured before it counts), compared with the Spec oracle '
                 '(cycle reachable?) and exactly with the Lean model. non-trivial = distinct (graph, rendering, entry) with a '
@@ -721,10 +902,18 @@ def run(ctx):
     def batches():
         yield special_jobs()
         depths = list(range(1, 61))
-        kinds = ['unknown', 'valueerror', 'runtimeerror', 'self', 'back-to-top', 'back-to-middle', 'value']
+        kinds = ['unknown', 'valueerror', 'runtimeerror', 'notimplemented', 'subclass', 'recursionerror', 'vlookup',
+                 'self', 'back-to-top', 'back-to-middle', 'value']
         yield chain_jobs(depths, kinds)
+        # the interpreter's own recursion limit (about 7 frames per cell level) on acyclic chains
+        yield deep_jobs([130, 150, 200, 400] + ([700, 1500] if wide else []), ['value', 'unknown', 'notimplemented'])
+        # histories on ONE evaluator
+        hdepths = list(range(2, 61)) if wide else [2, 3, 4, 5, 7, 10, 20, 40, 60]
+        yield chain_hist_jobs(hdepths, ['unknown', 'valueerror', 'runtimeerror', 'notimplemented', 'subclass',
+                                        'recursionerror', 'vlookup', 'switch', 'self', 'back-to-middle', 'value'])
         for n in (1, 2, 3):
             yield graph_jobs(range(1 << (n * n)), n, modes, 'g')
+            yield graph_hist_jobs(range(1 << (n * n)), n, 'g')
         # acyclic sharing in bulk: every graph whose edges go from a lower to a higher cell (all DAGs up to
         # relabelling)
         nd = 6 if wide else 5
@@ -741,6 +930,7 @@ def run(ctx):
         if wide:
             for k in range(0, 1 << 16, 8192):
                 yield graph_jobs(range(k, k + 8192), 4, modes + ['grid'], 'g')
+                yield graph_hist_jobs(range(k, k + 8192), 4, 'g')
             reps5 = [int(x) for x in canonical_reps(5)]
             res.count('graphs5_up_to_isomorphism', len(reps5))
             for k in range(0, len(reps5), 8192):
@@ -749,6 +939,7 @@ def run(ctx):
             reps4 = [int(x) for x in canonical_reps(4)]
             res.count('graphs4_up_to_isomorphism', len(reps4))
             yield graph_jobs(reps4, 4, modes + ['grid'], 'g')
+            yield graph_hist_jobs(reps4, 4, 'g')
 
     complete = run_corpus(ctx, res, workers)
     if ctx.replay:
